@@ -180,7 +180,7 @@ Section DriverWf.
       destruct (if filt then _ else _) as [X1 G2].
       destruct (is_f0_target_reached _ _); [apply wf_ret|].
       destruct (is_f0_min_change_reached _ _ _); [apply wf_ret|].
-      destruct (update_mem K c _ _ _ _ _) as [[X2 G3] m2].
+      destruct (update_mem_f K c _ _ _ _ _ _) as [[X2 G3] m2].
       destruct (u_cb U) as [cb|] eqn:Ec; [|apply wf_ret].
       apply wf_bind; [apply wf_call; [reflexivity|eapply cb_total; eauto]|]. intros b. destruct b; apply wf_ret.
   Qed.
